@@ -43,10 +43,14 @@ def main():
         if ck.tier == "quick":
             nreg, nsing, nmax, nops = 320, 80, 25, 14
         else:
-            nreg, nsing, nmax, nops = 1500, 300, 60, 40
+            nreg, nsing, nmax, nops = 700, 300, 60, 30
         for k in range(nreg):
             # a share of small dimensions, the rest up to nmax
-            nm = nmax if ck.rng.random() < 0.6 else max(4, nmax // 2)
+            u = ck.rng.random()
+            if ck.tier == "quick":
+                nm = nmax if u < 0.6 else max(4, nmax // 2)
+            else:
+                nm = nmax if u < 0.12 else (40 if u < 0.35 else 20)
             cases.append(lu.plan_case(ck.rng, "D", nm, nops, lu.FAMILIES, stats=ck.hist))
         for k in range(nsing):
             cases.append(lu.plan_singular(ck.rng, "D", max(4, nmax // 2), lu.FAMILIES))
@@ -63,11 +67,12 @@ def main():
     elif cases and any(o[0] == "CHG" and o[2] == "N" for o in cases[0]["ops"]):
         probes, cases = cases, []
 
+    lu.HARNESS_TIMEOUT = 90 if ck.tier == "quick" else 900
     blocks, crashes = lu.run_all(exe, cases, "C10")
     for (last, nobs, rc, err) in crashes:
         cc = dict(cases[last])
         cc["ops"] = cases[last]["ops"][:nobs + 1]
-        ck.violation("crash:D", "the implementation crashed (rc=%d) in case %d after %d observations" % (rc, last, nobs),
+        ck.violation("crash:D", "the implementation crashed or did not terminate (rc=%d; 124 = timeout) in case %d after %d observations" % (rc, last, nobs),
                      {"kind": "crash", "case": cc, "stderr": err})
     for k, c in enumerate(probes):
         cid = "p%d" % k
